@@ -36,6 +36,10 @@ CHECKS = {
          "model_checking",
          "Bounded symbolic model checking: sequences of 0..4 symbolic instants, symbolic query instants (so equal-to-element / between / outside cases are solver cases), indices and slice bounds over -n-2..n+2 incl. None, inc both ways, after a prior query that varies the cache state.",
          "Trusted: carrier is rruleset with integer rdates (the query code is rrulebase's and type-agnostic); replace() is outside; each path witness replayed natively.", "§5 C12", "chx"),
+ "C11": ("symbolic schedules explored by CrossHair core + z3: (a) run-length-encoded interleavings of 2-3 live iterators and queries over the real _iter_cached with a model mutex; (b) _iter_cached re-parsed and rewritten (AST) into a step generator with a pre-emption point before every statement, two logical threads, switch points as solver variables; path-exhaustive per cell",
+         "model_checking",
+         "Bounded model checking of schedules: every schedule in the stated vocabulary/pre-emption bound is a path; each checks that every iterator/thread observes exactly the uncached sequence, nothing raises, no deadlock, the mutex is free at quiescence.",
+         "Trusted: statement-granularity atomicity (attribute access, list ops atomic; advancing the shared generator is split into begin/end so re-entrancy is visible), the AST rewriting (its output is printed in DESIGN.md; sequential semantics preserved by construction), model lock. Real OS threads, >2 threads, pre-emption bound >2 are outside.", "§5 C11", "seqz"),
 }
 NA = {}
 
